@@ -79,6 +79,17 @@ TLV_FUNCS = {
 }
 
 
+# property theorems restated about the translated decoder / encoder (lean/PyemvGen/TlvSource{Dec,Enc,Both}.lean)
+TLV_SRC = {
+    "C09": {"Dec": ["decode_total", "decode_never_crashes", "decode_ok_iff"]},
+    "C17": {"Dec": ["decode_err_eq_spec"]},
+    "C10": {"Enc": ["encode_never_crashes", "encode_accepts_iff_wellformed", "encode_canonical", "encode_error_names_first_offender"]},
+    "C18": {"Dec": ["convert_calls", "flat_eq_prims"], "Both": ["roundtrip", "reencode"]},
+}
+TLV_SRC_NEEDS = {"Dec": ["decode"], "Enc": ["encode"], "Both": ["decode", "encode"]}
+TLV_SRC_MOD = {n: part for v in TLV_SRC.values() for part, ns in v.items() for n in ns}
+
+
 # properties whose statements reach the cryptogram-version classes
 CVN_PIDS = {"C08", "C13", "C14", "C15", "C16"}
 
@@ -113,6 +124,7 @@ def gen_obligations(pid):
     out += ["Pyemv.ModRefines." + t for m in SOURCE_OF.get(pid, []) for t in SOURCE_THMS[m]]
     out += [e["theorem"] for e in src_index(pid)]
     out += ["Pyemv.TlvRefines." + n for n in TLV_FUNCS.get(pid, [])]
+    out += ["Pyemv.TlvSource." + n for ns in TLV_SRC.get(pid, {}).values() for n in ns]
     if pid in CVN_PIDS:
         gen = json.load(open(os.path.join(LEAN, "obligations.json"))).get("C08_gen", [])
         out += gen if pid == "C08" else [n for n in gen if n.endswith("_new") or n.endswith("_row")]
@@ -205,6 +217,18 @@ def tlv_job(pid, problems):
             for n in names:
                 problems.append(("TlvRefines." + n, f"TlvRefines.{n}: the {h}r translated from the current source is no longer proved equal "
                                                     f"to the model: {bad[TLV_MODULE[h]]}"))
+    # the property's theorems restated about the translated decoder / encoder, where the halves they rest on stand
+    down = {h for h in halves if h in fails or TLV_MODULE[h] in bad}
+    for part, names in TLV_SRC.get(pid, {}).items():
+        if set(TLV_SRC_NEEDS[part]) & down:
+            for n in names:
+                problems.append(("TlvSource." + n, None))        # rests on a half already reported
+            continue
+        b2, _ = build_each(["PyemvGen.TlvSource" + part])
+        if b2:
+            for n in names:
+                problems.append(("TlvSource." + n, f"TlvSource.{n}: the property theorem restated about the translated code no longer checks: "
+                                                   + list(b2.values())[0]))
 
 
 def lake_build(pid):
@@ -289,6 +313,8 @@ def audit(pid, workdir, broken=()):
         imports += "import PyemvGen.CvnRefines\n"
     for h in sorted({TLV_HALF[n.split(".")[-1]] for n in printable if ".TlvRefines." in n}):
         imports += "import " + TLV_MODULE[h] + "\n"
+    for part in sorted({TLV_SRC_MOD[n.split(".")[-1]] for n in printable if ".TlvSource." in n}):
+        imports += "import PyemvGen.TlvSource" + part + "\n"
     path = os.path.join(workdir, f"Audit_{pid}.lean")
     with open(path, "w") as f:
         f.write(imports + "".join(f"#print axioms {n}\n" for n in printable))
@@ -674,7 +700,7 @@ def main():
         ok, log, gen_problems = lake_build(pid)
         if not ok:
             proof_problems.append("lake build failed: " + log.strip()[-600:])
-        proof_problems += [msg for _, msg in gen_problems]
+        proof_problems += [msg for _, msg in gen_problems if msg]
         hits = grep_forbidden()
         if hits:
             proof_problems.append("forbidden construct in Lean sources: " + "; ".join(hits[:5]))
